@@ -1,6 +1,8 @@
 package main
 
 import (
+	"bytes"
+	"encoding/binary"
 	"encoding/hex"
 	"math/rand"
 	"sort"
@@ -112,7 +114,7 @@ func genParamsDescribe(r *rand.Rand, id string) *Case {
 			}
 		}
 		name := pick(r, namePool)
-		in = append(in, msgParse(name, string(qb), nil)...)
+		in = append(in, msgParse(name, string(qb), randOids(r, 3))...)
 		in = append(in, msgDescribe('S', name)...)
 		if r.Intn(2) == 0 {
 			in = append(in, msgSync()...)
@@ -248,6 +250,43 @@ func genLimit(r *rand.Rand, id string) *Case {
 	c.Cuts = randCuts(r, len(in))
 	c.Extra["xp"] = strings.Join(xp, ",")
 	c.Extra["xend"] = "w"
+	if r.Intn(12) == 0 {
+		// a LARGE but admissible start-up packet (body of 10 001 .. L bytes for a limit well above 10 000, the
+		// default included): it is within the limit, so the session is served normally
+		c3 := baseCase(id, "limit")
+		c3.L = []int{0, -1, 20000, 65536}[r.Intn(4)]
+		eff := c3.L
+		if eff <= 0 {
+			eff = 1 << 24
+		}
+		sz := []int{10001, 12000, 19000, 30000}[r.Intn(4)]
+		if sz+60 > eff {
+			sz = eff - 60
+		}
+		c3.In = startup(196608, [][2]string{{"user", "u"}, {"options", strings.Repeat("o", sz)}}, true)
+		c3.In = append(c3.In, msgQuery(probeQuery("BIGSTART", 0))...)
+		c3.Extra["xp"] = xpC("BIGSTART") + ",Z"
+		c3.Extra["xend"] = "w"
+		return c3
+	}
+	if r.Intn(12) == 0 {
+		// a message of more than 64 KiB within the (default) limit whose body stops short: the client then
+		// half-closes. The message is incomplete: it is never handed to its handler
+		c4 := baseCase(id, "limit")
+		c4.L = 0
+		decl := 66000 + r.Intn(9000)
+		have := decl - 1 - r.Intn(5000)
+		body := append(cstr(""), cstr(probeQuery("TRUNC", 0))...)
+		body = append(body, 0, 0)
+		for len(body) < have {
+			body = append(body, 'x')
+		}
+		c4.In = append(plainStartup("u"), typedLen([]byte("PQ")[r.Intn(2)], uint32(decl+4), body)...)
+		c4.EOF = true
+		c4.Extra["xp"] = ""
+		c4.Extra["xend"] = "c"
+		return c4
+	}
 	if r.Intn(10) == 0 {
 		// oversized message during startup / authentication: the connection ends, no reply
 		c2 := baseCase(id, "limit")
@@ -603,7 +642,7 @@ func genBind(r *rand.Rand, id string) *Case {
 	ops = append(ops, "r:"+strings.Join(vals, ","), "c:"+hxs("OK"))
 	script := strings.Join(colspec, ",") + "/" + strings.Join(oids, ",") + "/" + strings.Join(ops, ";") + "/ok"
 	sname, pname := pick(r, namePool), pick(r, namePool)
-	in = append(in, msgParse(sname, script, nil)...)
+	in = append(in, msgParse(sname, script, randOids(r, len(oids)))...)
 	in = append(in, msgDescribe('S', sname)...)
 	if r.Intn(2) == 0 {
 		// an earlier Bind of the same portal name (other parameters, other result formats): the
@@ -766,11 +805,16 @@ func genExt(r *rand.Rand, id string) *Case {
 	c.L = []int{0, 512}[r.Intn(2)]
 	msgs := [][]byte{plainStartup("u")}
 	n := 2 + r.Intn(22)
+	longTexts := r.Intn(3) == 0 // histories that cross the reader's 4 KiB granules several times
 	for i := 0; i < n; i++ {
 		name := pick(r, namePool)
 		switch k := r.Intn(40); {
 		case k < 8:
-			msgs = append(msgs, msgParse(name, genExtScript(r), nil))
+			sc := genExtScript(r)
+			if longTexts {
+				sc += "/" + strings.Repeat("filler ", 120+r.Intn(120))
+			}
+			msgs = append(msgs, msgParse(name, sc, randOids(r, 2)))
 		case k < 14:
 			msgs = append(msgs, msgBind(name, pick(r, namePool), nil, nil, genResultFormats(r)))
 		case k < 18:
@@ -853,7 +897,11 @@ func genNames(r *rand.Rand, id string) *Case {
 			}
 			tag := "S" + strconv.Itoa(i)
 			q := strings.Join(cols, ",") + "/" + strings.Join(ps, ",") + "/r:" + strings.Join(vals, ",") + ";c:" + hxs(tag) + "/ok"
-			in = append(in, msgParse(name, q, nil)...)
+			if r.Intn(4) == 0 {
+				// filler: a long statement text, so that a history crosses the reader's 4 KiB granules
+				q += "/" + strings.Repeat("filler ", 100+r.Intn(150))
+			}
+			in = append(in, msgParse(name, q, randOids(r, nparam))...)
 			stmts[name] = stmtDef{query: q, ncols: ncols, nparam: nparam}
 			xp = append(xp, "1")
 		case k < 6:
@@ -1314,7 +1362,16 @@ func genAuth(r *rand.Rand, id string) *Case {
 		kv = append(kv, [2]string{"database", pick(r, []string{"db", ""})})
 	}
 	in := startup(196608, kv, true)
-	switch k := r.Intn(16); {
+	if r.Intn(4) == 0 {
+		// surplus bytes behind the terminator of the parameter list (ignored by the library), shaped like
+		// an acceptable password: no later message may be authenticated against them
+		in = startupSurplus(kv, []byte(pick(r, []string{"ok\x00", "okay\x00rest", "ok"})))
+	}
+	switch k := r.Intn(18); {
+	case k == 16: // the validator reports the comparison AND an error: a failure, not an accept
+		in = append(in, msgPassword(pick(r, []string{"failok", "failokay"}))...)
+	case k == 17: // a password message without any body
+		in = append(in, typed('p', nil)...)
 	case k < 4:
 		in = append(in, msgPassword(pick(r, []string{"ok", "okay", "ok\xff"}))...)
 	case k < 8:
@@ -1355,6 +1412,15 @@ func genAuth(r *rand.Rand, id string) *Case {
 }
 
 func init() { generators["auth"] = genAuth }
+
+// startupSurplus: a protocol 3.0 start-up packet whose declared length covers `extra` bytes behind the
+// terminator of the parameter list
+func startupSurplus(kv [][2]string, extra []byte) []byte {
+	p := startup(196608, kv, true)
+	p = append(p, extra...)
+	binary.BigEndian.PutUint32(p[:4], uint32(len(p)))
+	return p
+}
 
 func kvHex(m map[string]string) string {
 	keys := make([]string, 0, len(m))
@@ -1618,7 +1684,17 @@ func genMulti(r *rand.Rand, id string) *Case {
 			params = append(params, bindParam{v: []byte("{1,2," + strconv.Itoa(i) + "}")})
 		}
 		name := pick(r, namePool)
-		in = append(in, msgParse(name, q, nil)...)
+		if r.Intn(3) == 0 {
+			// every connection prepares the SAME statement text (declared parameter type unspecified), some
+			// prespecify a type for it: what one connection is told must not depend on the others
+			var pre []uint32
+			if r.Intn(2) == 0 {
+				pre = []uint32{uint32(23 + i)}
+			}
+			in = append(in, msgParse("shared", "/P//ok/ select $1", pre)...)
+			in = append(in, msgDescribe('S', "shared")...)
+		}
+		in = append(in, msgParse(name, q, randOids(r, 2))...)
 		in = append(in, msgBind(name, name, nil, params, nil)...)
 		in = append(in, msgDescribe('P', name)...)
 		in = append(in, msgExecute(name, 0)...)
@@ -1677,6 +1753,7 @@ func genRetain(r *rand.Rand, id string) *Case {
 	if c.Auth {
 		in = append(in, msgPassword("ok-secret-"+strconv.Itoa(r.Intn(1000)))...)
 	}
+	c.CX = r.Intn(2) == 0 // callbacks also look at the client parameters of their context (views into the start-up packet)
 	n := 3 + r.Intn(10)
 	pad := func(q string, size int) string {
 		if size > len(q)+2 {
@@ -1715,6 +1792,28 @@ func genRetain(r *rand.Rand, id string) *Case {
 			}
 			in = append(in, typed([]byte("QPBd")[r.Intn(4)], body)...)
 		case 8:
+			if L >= 8192 && r.Intn(2) == 0 {
+				// two portals whose parameter values live in message bodies of more than 4 KiB; the second
+				// body is not larger than the first; both are executed afterwards
+				in = append(in, msgParse("big", "t/25/s:25,0;r:t"+hxs("x")+";c:"+hxs("OK")+"/ok", nil)...)
+				p1 := bytes.Repeat([]byte("first-"+strconv.Itoa(i)+"."), 1)
+				for len(p1) < 5000+r.Intn(1500) {
+					p1 = append(p1, byte('a'+len(p1)%26))
+				}
+				p2 := []byte("second-" + strconv.Itoa(i) + ".")
+				for len(p2) < 4200+r.Intn(700) {
+					p2 = append(p2, byte('A'+len(p2)%26))
+				}
+				in = append(in, msgBind("pa", "big", nil, []bindParam{{v: p1}}, nil)...)
+				in = append(in, msgBind("pb", "big", nil, []bindParam{{v: p2}}, nil)...)
+				if r.Intn(2) == 0 {
+					in = append(in, msgQuery(pad(probeQuery("BIGQ"+strconv.Itoa(i), 0), 4300))...)
+				}
+				in = append(in, msgExecute("pa", 0)...)
+				in = append(in, msgExecute("pb", 0)...)
+				in = append(in, msgSync()...)
+				break
+			}
 			q := "t//g:0;K3;c:" + hxs("COPY") + "/ok"
 			if len(q)+1 <= L {
 				in = append(in, msgQuery(q)...)
